@@ -962,7 +962,12 @@ fn equal_qname(
     context: &model::Context,
 ) -> error::Result<bool> {
     if let Some((local_part_a, _, uri_a)) = node.as_expanded_name()? {
-        let (local_part_b, _, uri_b) = context.expanded_name(qname)?;
+        let (local_part_b, prefix_b, mut uri_b) = context.expanded_name(qname)?;
+        // A default namespace bound by the caller applies to element names only; an unprefixed
+        // name test on any other node (attribute, namespace, ...) selects names in no namespace.
+        if prefix_b.is_none() && !matches!(node, dom::XmlNode::Element(_)) {
+            uri_b = None;
+        }
         Ok(local_part_a == local_part_b && uri_a == uri_b)
     } else {
         Ok(false)
